@@ -96,7 +96,18 @@ class Actor:
             return True
         self.started = True
         if self.spec["role"] == "writer":
-            if self.i < len(self.items):
+            chunk = self.spec.get("write_many")
+            if chunk and self.i < len(self.items):
+                # the application hands the writer several items at once (write_many over an iterable); an
+                # item the encoder refuses aborts the call part-way and the application carries on
+                part = self.items[self.i:self.i + chunk]
+                try:
+                    self.obj.write_many(copy.deepcopy(y) if isinstance(y, dict) else y for y in part)
+                    self.obs.append(("write_many", self.i, len(part), bsum(self.f.getvalue())))
+                except Exception as ex:
+                    self.obs.append(("write_many", self.i, "raised", type(ex).__name__, bsum(self.f.getvalue())))
+                self.i += len(part)
+            elif self.i < len(self.items):
                 x = self.items[self.i]
                 try:
                     self.obj.write(copy.deepcopy(x) if isinstance(x, dict) else x)
